@@ -47,15 +47,58 @@ type c31World struct {
 	a, b  *vnode
 	swaps map[string]int
 	tunN  int
+	// overlay addresses used for application traffic (a's and b's), same family
+	ta, tb netip.Addr
+}
+
+// c31Packet builds an IPv4 or IPv6 UDP datagram depending on the address family.
+func c31Packet(src, dst netip.Addr, sport, dport uint16, payload []byte) []byte {
+	if src.Is4() {
+		return vUDPPacket(src, dst, sport, dport, payload)
+	}
+	b := make([]byte, 48+len(payload))
+	b[0] = 0x60
+	pl := 8 + len(payload)
+	b[4], b[5] = byte(pl>>8), byte(pl)
+	b[6], b[7] = 17, 64
+	s16, d16 := src.As16(), dst.As16()
+	copy(b[8:24], s16[:])
+	copy(b[24:40], d16[:])
+	b[40], b[41] = byte(sport>>8), byte(sport)
+	b[42], b[43] = byte(dport>>8), byte(dport)
+	b[44], b[45] = byte(pl>>8), byte(pl)
+	copy(b[48:], payload)
+	return b
+}
+
+func (w *c31World) pkt(from *vnode, marker string) []byte {
+	if from == w.a {
+		return c31Packet(w.ta, w.tb, 1, 2, []byte(marker))
+	}
+	return c31Packet(w.tb, w.ta, 1, 2, []byte(marker))
 }
 
 func c31New(t testing.TB, seed int64, scenario string) *c31World {
-	net := vTwoNodes(t, seed)
+	var net *vnet
+	if scenario == "simultaneous-dualstack" {
+		// a is dual stack (first address IPv4), b is IPv6 only and its address sorts below a's IPv6 address
+		a := vnodeSpec{Name: "a", Networks: "10.0.0.1/24,fd00::5/64", Udp: "192.0.2.1:4242", Overrides: m{
+			"static_host_map": m{"fd00::2": []string{"192.0.2.2:4242"}}}}
+		b := vnodeSpec{Name: "b", Networks: "fd00::2/64", Udp: "192.0.2.2:4242", Overrides: m{
+			"static_host_map": m{"fd00::5": []string{"192.0.2.1:4242"}, "10.0.0.1": []string{"192.0.2.1:4242"}}}}
+		net = vNewNet(t, seed, a, b)
+	} else {
+		net = vTwoNodes(t, seed)
+	}
 	w := &c31World{net: net, a: net.node("a"), b: net.node("b"), swaps: map[string]int{}}
+	w.ta, w.tb = w.a.vpnIP, w.b.vpnIP
+	if scenario == "simultaneous-dualstack" {
+		w.ta = netip.MustParseAddr("fd00::5")
+	}
 	switch scenario {
-	case "simultaneous":
-		w.a.tunSend(vUDPPacket(w.a.vpnIP, w.b.vpnIP, 1, 2, []byte("init-a")))
-		w.b.tunSend(vUDPPacket(w.b.vpnIP, w.a.vpnIP, 1, 2, []byte("init-b")))
+	case "simultaneous", "simultaneous-dualstack":
+		w.a.tunSend(w.pkt(w.a, "init-a"))
+		w.b.tunSend(w.pkt(w.b, "init-b"))
 		net.collect()
 	case "rehandshake":
 		// an established tunnel, then both sides start a fresh handshake (what tryRehandshake does)
@@ -136,7 +179,7 @@ func (w *c31World) apply(e c31Ev) bool {
 	case "tun":
 		n := w.node(e.N)
 		w.tunN++
-		n.tunSend(vUDPPacket(n.vpnIP, w.peerOf(n).vpnIP, 1, 2, []byte(fmt.Sprintf("hist-%s-%d", e.N, w.tunN))))
+		n.tunSend(w.pkt(n, fmt.Sprintf("hist-%s-%d", e.N, w.tunN)))
 	}
 	w.net.collect()
 	return true
@@ -263,8 +306,8 @@ func (w *c31World) hasCompletedTunnel() bool {
 func (w *c31World) probe(maxRounds int) (bool, int) {
 	for round := 0; round < maxRounds; round++ {
 		ma, mb := fmt.Sprintf("probe-a-%d", round), fmt.Sprintf("probe-b-%d", round)
-		w.a.tunSend(vUDPPacket(w.a.vpnIP, w.b.vpnIP, 7, 7, []byte(ma)))
-		w.b.tunSend(vUDPPacket(w.b.vpnIP, w.a.vpnIP, 7, 7, []byte(mb)))
+		w.a.tunSend(w.pkt(w.a, ma))
+		w.b.tunSend(w.pkt(w.b, mb))
 		w.net.collect()
 		w.net.flushFIFO(400)
 		gotB, gotA := false, false
@@ -300,8 +343,8 @@ func (w *c31World) closure(maxRounds, trafficRounds int) (bool, string) {
 	stable := 0
 	for round := 0; round < maxRounds; round++ {
 		if round < trafficRounds { // steady application traffic in both directions while the managers sort things out
-			w.a.tunSend(vUDPPacket(w.a.vpnIP, w.b.vpnIP, 9, 9, []byte(fmt.Sprintf("steady-a-%d", round))))
-			w.b.tunSend(vUDPPacket(w.b.vpnIP, w.a.vpnIP, 9, 9, []byte(fmt.Sprintf("steady-b-%d", round))))
+			w.a.tunSend(w.pkt(w.a, fmt.Sprintf("steady-a-%d", round)))
+			w.b.tunSend(w.pkt(w.b, fmt.Sprintf("steady-b-%d", round)))
 			w.net.collect()
 		}
 		w.net.flushFIFO(400)
@@ -342,7 +385,7 @@ func TestVerifC31(t *testing.T) {
 	firstDone := map[string]bool{}
 	maxRoundsSeen := 0
 
-	for _, scenario := range []string{"simultaneous", "rehandshake"} {
+	for _, scenario := range []string{"simultaneous", "rehandshake", "simultaneous-dualstack"} {
 		// determinism: the same history twice gives the same key and wire bytes
 		h0 := []c31Ev{{K: "dl", I: 0}, {K: "hs", N: "a"}, {K: "dl", I: 0}}
 		var k [2]string
@@ -362,9 +405,17 @@ func TestVerifC31(t *testing.T) {
 		if scenario == "rehandshake" {
 			depth = mc.Pick(c, 3, 6)
 		}
+		if scenario == "simultaneous-dualstack" {
+			depth = mc.Pick(c, 3, 6)
+		}
 		tunBudget := 1
+		// every scenario gets its own share of the soft budget, so a slow machine cannot starve the later ones
+		share := map[string]float64{"simultaneous": 0.4, "rehandshake": 0.3, "simultaneous-dualstack": 0.3}[scenario]
+		scStart := c.Elapsed()
+		total := mc.Pick(c, 55.0, 1150.0)
+		stop := func() bool { return c.Elapsed()-scStart > share*total || c.OutOfTime() }
 		mc.BFSReplay(c, mc.BFSConfig[c31Ev]{
-			MaxDepth: depth, Workers: 1, Stop: c.OutOfTime,
+			MaxDepth: depth, Workers: 1, Stop: stop,
 			Label: func(e c31Ev) string { return scenario + "/" + e.String() },
 			Run: func(hist []c31Ev) (string, []c31Ev) {
 				w := c31New(t, seed, scenario)
